@@ -1127,7 +1127,12 @@ func v4Behaviour(c *v4Cluster, b vBehaviour) []v4Event {
 	}
 	for _, in := range c.insts {
 		in := in
-		c.awaitFor(40*time.Second, func() bool { p, _ := c.pcOf(in); return p == "done" })
+		if !c.awaitFor(8*time.Second, func() bool { p, _ := c.pcOf(in); return p == "done" }) && in.par == 0 && in.cancel != nil {
+			// a propagated request that sat in the subscription of a server that has unsubscribed meanwhile is
+			// dropped by NATS: its client gives up
+			in.cancel()
+			c.awaitFor(30*time.Second, func() bool { p, _ := c.pcOf(in); return p == "done" })
+		}
 	}
 	c.await("a Raft leader", func() bool { return c.leader() != "" })
 	c.quiet()
